@@ -54,7 +54,14 @@ RULE = ('kernel/vfw: 1-4 inputs-pairs lists with autocorrelations at random posi
         'cases); vv: real table; avg: Gaussian-integer visibilities scaled so that the weighted mean is exact in '
         'complex64, weights 2^e or small integers (also negative, summing to zero), all factors 1..size+2, flag patterns '
         'with empty, partly and fully flagged bins, 127..257 baselines (block boundaries of the kernel), an empty axis, '
-        'the call without options.  A case is one configuration; non-trivial when it has a cross product with two '
+        'the call without options; every avg case hands the flags over as a canonical 0/1 bool array, as a bool VIEW of '
+        'arbitrary bytes (True backed by 2, 4, 16, 80, 255 ...) or as bitwise_and(select, raw).view(bool) for 11 selection '
+        'masks with unselected bits set on unflagged samples; v4avg: average_visibilities(d.vis[:], d.weights[:], '
+        'd.flags[:]) on real v4 data sets with stored flag bytes under 12 flag selections (all, single bits, none, '
+        'mixtures); vvtable: the real autocorr_lookup_table for 6 level sets (MeerKAT 255 levels, 6 / 4 / 2 bit, 3 level, '
+        'offset -128..127) x sizes default, 3..1000 and the refused 1, 2 - exact checks of the table, of the intermediate '
+        'grid / expected quantised powers, construction by the model node for node, a dead input through '
+        'correct_autocorr_quantisation.  A case is one configuration; non-trivial when it has a cross product with two '
         'different autocorrelations and a special value or a non-unit weight (weights), a lost chunk / preselection / '
         'non-default option (store), a non-zero excision (v4), more than one sample per bin and a flag (avg); distinct by '
         'the whole configuration')
@@ -64,7 +71,7 @@ ASSUMPTIONS = ['float32 rounding, overflow and underflow are not modelled: gener
                'the sign of zero is not in the carrier (-0.0 is generated; a Coq lemma shows the kernel result does '
                'not depend on it)',
                'Van Vleck with the real table: |impl - exact interpolation| <= 1 ulp of float32 (np.interp rounds in '
-               'float64, then complex64 storage rounds once more); monotonicity of the real table checked numerically',
+               'float64, then complex64 storage rounds once more); the real table and the intermediate arrays of its construction are checked exactly on every run (vv_numerics_ok is a hypothesis of the construction theorems, not proved for the erf numerics)',
                'averager: bins whose exact mean is not a float32 (or whose unweighted fall-back multiplies by the '
                'rounded float32(1/n)) are compared within 2 ulp of float32 per component; all others exactly',
                'averager inputs are finite (NaN / infinite visibilities or weights are outside the model)',
